@@ -608,7 +608,8 @@ class MarkdownNormalizer(Renderer):
         # Need to escape if:
         # 1. We're at or near the start of a line
         # 2. The accumulated text is just digits (matches list marker pattern: "1.")
-        stripped = self._current_inline_text.lstrip()
+        # Only the current source line matters: "1\." also starts a list after a soft line break.
+        stripped = self._current_inline_text.rsplit("\n", 1)[-1].lstrip()
         if stripped and stripped.isdigit():
             # This is "1\." at line start - preserve escape to prevent list interpretation
             self._current_inline_text += f"\\{char}"
@@ -626,6 +627,7 @@ class MarkdownNormalizer(Renderer):
         return text
 
     def render_line_break(self, element: inline.LineBreak) -> str:
+        self._current_inline_text += "\n"
         return "\n" if element.soft else "\\\n"
 
     def render_code_span(self, element: inline.CodeSpan) -> str:
